@@ -10,8 +10,9 @@ accesses (same location, one a write, not atomic, no common lock).
 **What is missing for the full property (hence `_partial`):** the access table is read off the source by
 hand; that it lists every shared location and every access is *not* proved — it is validated dynamically by
 ThreadSanitizer runs of the real binaries (tools/checks/c09.py).  The theorem also assumes, per `exit` event,
-that the parent's thread is not running (`exitQuiet`); the current C++ code violates this occasionally
-(known finding `worker-destroy-vs-poll`, found by the TSan run). -/
+that the parent's thread is not running (`exitQuiet`); the acceptor checks this on every recorded destruction
+(strict mode).  The original C++ code violated it occasionally (`worker-destroy-vs-poll`, found by the TSan run,
+repaired in the hooked tree by reordering `~WorkerThread`). -/
 namespace Conc
 
 variable {n : Nat}
